@@ -175,8 +175,9 @@ surv0_ctx_recv(void *arg, nni_aio *aio)
 	}
 
 	timeout = nni_aio_get_timeout(aio);
-	if ((timeout < 1) || ((now + timeout) > ctx->expire)) {
-		// limit the timeout to the survey time
+	if ((timeout < 0) || ((now + timeout) > ctx->expire)) {
+		// limit the timeout to the survey time (but leave a zero
+		// timeout alone: a non-blocking receive must not wait)
 		nni_aio_set_expire(aio, ctx->expire);
 	}
 
